@@ -164,7 +164,11 @@ class ConfigModel:
             # path.parent / "<name>": the extended file's Path, or a missing file
             if isinstance(op, ast.Div) and isinstance(a, Obj) and a._kind == "Dir" and isinstance(b, str):
                 if b.startswith("file") and b[4:].isdigit() and int(b[4:]) < len(paths):
-                    return paths[int(b[4:])]
+                    # `dir / "name"` is a new, unresolved path object (think `../conf/name`, a symlink): only resolve() gives the canonical one
+                    target = paths[int(b[4:])]
+                    alias = Obj("Path", idx=target._attrs.get("idx"), unresolved=True)
+                    alias._attrs["resolve"] = lambda strict=False, target=target: target
+                    return alias
                 missing = Obj("Path", idx=-1)
                 missing._attrs["resolve"] = lambda strict=False: (_ for _ in ()).throw(PyRaise("FileNotFoundError", None))
                 return missing
